@@ -188,3 +188,40 @@ Fixpoint state_after (st : fstate) (ops : list (list lin)) : fstate :=
   | [] => st
   | ls :: r => state_after (fst (tick st ls)) r
   end.
+
+(** ---- derived notions used in the theorem statements ------------------------------ *)
+
+(** The delay tier [classify] picks for this link vector. *)
+Definition tier_of (ls : list lin) : Z := selected_delay ls (derive_max_delay_budget (longest_rtt ls)).
+
+(** The link is judged on this tick: connected, and the tick is not bypassed. *)
+Definition classified (ls : list lin) (l : lin) : bool := negb (bypassed ls) && l_conn l.
+
+(** The verdict [classify] returns for link [l] of the vector [ls] from memory [st]. *)
+Definition verdict (st : fstate) (ls : list lin) (l : lin) : lout :=
+  if bypassed ls then V (l_id l) false RB 0 0
+  else fst (link_step (conn_count ls) (total_bps ls) (tier_of ls) st l).
+
+(** The memory entry [classify] writes for a classified link. *)
+Definition entry_after (st : fstate) (ls : list lin) (l : lin) : lst :=
+  match snd (link_step (conn_count ls) (total_bps ls) (tier_of ls) st l) with
+  | Some (_, e) => e
+  | None => lst0
+  end.
+
+(** The delay signal: RTT (whole ms) over the chosen tier, or a queue building. *)
+Definition signal (ls : list lin) (l : lin) : bool := (tier_of ls <? rtt_of l) || l_qb l.
+
+(** Throughput share in integer permille, as the classifier computes it. *)
+Definition share_of (ls : list lin) (l : lin) : Z := share_pm (bps_of l) (total_bps ls).
+
+Definition delay_verdict (o : lout) : bool :=
+  o_weak o && match o_reason o with RR | RQ => true | _ => false end.
+Definition share_verdict (o : lout) : bool := o_weak o && is_share_reason (o_reason o).
+Definition low_share_verdict (o : lout) : bool :=
+  o_weak o && match o_reason o with RL => true | _ => false end.
+
+Definition mem (st : fstate) (id : Z) : lst := lookup lst0 st id.
+
+(** Well-formed history: connection ids are distinct within every tick. *)
+Definition wf_ops (ops : list (list lin)) : Prop := Forall (fun ls => NoDup (map l_id ls)) ops.
